@@ -343,3 +343,25 @@ Example C02_design_errors :
   dsl_design 16 [mk_sd (Sh 2 false) 0 false] []
     [[IStmt (RSwitch (ESig 0 (Sh 2 false)) [(Some [RStr [C0; CSpace; C1; C1]], [])])]] [] = [0; 1].
 Proof. vm_compute. split; reflexivity. Qed.
+
+(* ... and the loop DOES converge for designs without combinational loops.  "No combinational loop", semantically: the
+   n signals can be ranked so that a delta does not change a signal of rank 0 and the value it gives a signal of rank
+   > 0 depends only on the signals of lower rank (for states satisfying an invariant of the loop).  Then settle reports
+   convergence whenever its fuel exceeds the largest rank R (the run uses fuel 16; a design that needs more is answered
+   [2], see above).  That a statement list whose every assignment reads only lower-ranked comb signals satisfies the
+   hypothesis is not proved in general (it needs that an expression's value depends only on the signals occurring in
+   it); it is proved for the example. *)
+Theorem C02_settle_terminates n tab mods (Inv : slots -> Prop) (rank : nat -> nat) R :
+  (forall st, Inv st -> Inv (commit (run_comb tab mods st))) ->
+  (forall i, (i < n)%nat -> (rank i <= R)%nat) ->
+  (forall st i, Inv st -> (i < n)%nat -> rank i = 0%nat -> s_curr (commit (run_comb tab mods st)) i = s_curr st i) ->
+  (forall st1 st2 i, Inv st1 -> Inv st2 -> (i < n)%nat -> (0 < rank i)%nat ->
+     (forall j, (j < n)%nat -> (rank j < rank i)%nat -> s_curr st1 j = s_curr st2 j) ->
+     s_curr (commit (run_comb tab mods st1)) i = s_curr (commit (run_comb tab mods st2)) i) ->
+  forall st fuel, Inv st -> (R < fuel)%nat -> snd (settle fuel n tab mods st) = true.
+Proof. intros H1 H2 H3 H4 st fuel. exact (settle_terminates n tab mods Inv rank R H1 H2 H3 H4 st fuel). Qed.
+Print Assumptions C02_settle_terminates.
+(* the hypotheses hold for y = ~x *)
+Example C02_settle_terminates_example st fuel :
+  ex_inv st -> (1 < fuel)%nat -> snd (settle fuel 2 ex_tab ex_mods st) = true.
+Proof. exact (settle_terminates_example st fuel). Qed.
